@@ -47,6 +47,9 @@ pub struct Named {
     /// `adjacent`-restricted argument: name and value must share one item
     #[serde(default, skip_serializing_if = "std::ops::Not::not")]
     pub adjacent: bool,
+    /// `.guard(|v| v < 10, ..)` on the (u32) value: a present value failing it fails the run
+    #[serde(default, skip_serializing_if = "std::ops::Not::not")]
+    pub guarded: bool,
 }
 fn ty_os() -> Ty {
     Ty::Os
@@ -116,7 +119,15 @@ impl Named {
     pub fn to_p(&self) -> P {
         let n = self.names.clone();
         let (ty, adjacent) = (self.ty, self.adjacent);
-        let arg = |n: Names| P::Arg { names: n, ty, adjacent, metavar: "ARG".into() };
+        let guarded = self.guarded;
+        let arg = |n: Names| {
+            let a = P::Arg { names: n, ty, adjacent, metavar: "ARG".into() };
+            if guarded {
+                P::Guard(a.bx(), GuardK::Lt10)
+            } else {
+                a
+            }
+        };
         let p = match self.kind {
             Kind::Switch => P::Switch(n),
             Kind::Flag => P::Flag(n),
@@ -503,6 +514,7 @@ fn parse_level_inner(l: &Level, anc: &[&Level], evs: &[Ev], env: &Env) -> Out {
         if n.kind.is_arg() {
             for x in o.iter() {
                 match convert(n.ty, x) {
+                    Some(Val::N(k)) if n.guarded && k >= 10 => return Out::Fail,
                     Some(v) => strs.push(v),
                     // present but invalid: the run fails
                     None => return Out::Fail,
